@@ -9,8 +9,20 @@ R = fullnative.akrun
 ints = fullnative.ints
 
 
+LEAFTYPES = [False]
+
+
 def gen_leaf(n):
     vals = [random.randint(0, 9) for _ in range(n)]
+    if LEAFTYPES[0]:
+        kind = random.choice(['i64', 'i32', 'u8', 'f64', 'f32', 'bool'])
+        if kind == 'bool':
+            vals = [v % 2 for v in vals]
+            return 'bool %s ' % ints(vals), [bool(v) for v in vals]
+        if kind in ('f64', 'f32'):
+            vals = [v + 0.5 * (v % 2) for v in vals]
+            return '%s %d %s ' % (kind, len(vals), ' '.join(repr(v) for v in vals)), vals
+        return '%s %s ' % (kind, ints(vals)), vals
     return 'i64 %s ' % ints(vals), vals
 
 
@@ -301,6 +313,8 @@ def main():
         RECORDS[0] = True
     if 'unions' in sys.argv:
         UNIONS[0] = True
+    if 'leaftypes' in sys.argv:
+        LEAFTYPES[0] = True
     bad = 0
     for t in range(count):
         depth = random.randint(1, 3)
